@@ -3,7 +3,7 @@
    types, andb/orb are inlined; N, positive, nat stay inductive datatypes.  No Extract Constant. *)
 From Coq Require Extraction.
 From Coq Require Import ExtrOcamlBasic.
-From Akd Require Import Bits NodeLabel ElemSet Marker Blake3 Hashing Tree Insert Manager Directory Verify Spec.
+From Akd Require Import Bits NodeLabel ElemSet Marker Blake3 Hashing Tree Insert Manager Directory Verify Spec Store Sched.
 
 Extraction "../extract/model.ml"
   is_prefix_of get_prefix get_longest_common_prefix get_prefix_ordering nl_cmp
@@ -14,4 +14,5 @@ Extraction "../extract/model.ml"
   get_membership_proof get_non_membership_proof verify_membership verify_nonmembership_gen verify_nonmembership
   init_state begin_transaction commit_transaction rollback_transaction set_record batch_set get_record batch_get
   get_user_state get_user_data get_user_state_versions tombstone flush evict
-  dir_new publish lookup key_history audit lookup_verify key_history_verify audit_verify_gen spec_root_hash rebuild_root verify_consecutive.
+  dir_new publish Directory.lookup key_history audit lookup_verify key_history_verify audit_verify_gen spec_root_hash rebuild_root verify_consecutive d_tombstone
+  commit_shape of_list overlay view determine root_hash_at Sched.run Sched.results.
